@@ -60,7 +60,7 @@ func init() {
 		PID: "C05", PLevel: "exploration",
 		RuleText: "scenario as for C01 with fan-in of up to 3 sources, fan-out to up to 3 destinations, 2-4 parallel processor workers with skewed per-record latencies (default engine), splits/cut-short/filters (arch-v2); every record received by a destination plugin is one obligation: per destination session and source strictly increasing emit index (pieces of a split in piece order), not written twice, and not a record the scripts filter or reject upstream of that destination. Non-trivial: >=5 writes judged; distinct = distinct (engine, topology shape, worker count, completion-order class).",
 		Assume:   []string{"records carry a lineage stamp (source, emit index, piece path) in metadata that processors preserve", "reference model of plugin result semantics (internal/pipe/model.go)"},
-		Quick:    320, Thorough: 12000,
+		Quick:    320, Thorough: 3200,
 		PointBias: []string{"funnel.worker.ack", "funnel.worker.nack", "funnel.multiack.ack", "funnel.multiack.nack", "connector.source.ack", "stream.sourceacker.ack", "stream.sourceacker.nack", "stream.fanout.ack"},
 		Anchors:   []string{"pkg/lifecycle/stream/parallel.go", "pkg/lifecycle/stream/fanout.go", "pkg/lifecycle/stream/fanin.go", "pkg/lifecycle/stream/processor.go", "pkg/lifecycle/stream/base.go", "pkg/lifecycle/stream/message.go", "pkg/lifecycle-poc/funnel/worker.go", "pkg/lifecycle-poc/funnel/batch.go", "pkg/lifecycle-poc/funnel/processor.go", "pkg/lifecycle-poc/funnel/sink.go"},
 		Gen:       gen, Judge: judge,
